@@ -5,6 +5,7 @@ mod auth_engine;
 mod codec_engine;
 mod core_engine;
 mod persist_engine;
+mod session_engine;
 mod util;
 
 fn main() {
@@ -20,6 +21,7 @@ fn main() {
         "auth" => auth_engine::main(&args[2], &args[3]),
         "persist" => persist_engine::main(&args[2], &args[3]),
         "agg" => agg_engine::main(&args[2], &args[3]),
+        "session" => session_engine::main(&args[2], &args[3]),
         other => {
             eprintln!("unknown engine {other}");
             std::process::exit(2);
